@@ -4,6 +4,7 @@ package redis
 
 import (
 	"context"
+	"fmt"
 	"time"
 
 	"github.com/acquirecloud/golibs/errors"
@@ -110,8 +111,19 @@ func zzSetNX(recv any, ctx context.Context, key string, value interface{}, exp t
 	return redis.NewBoolResult(true, nil)
 }
 
+// a transient server-side failure of the next GET issued by a waiter (a *zzCtx context marks the waiters' calls):
+// the reply is an error other than redis.Nil
+var (
+	zzGetFaults int
+	zzErrServer = fmt.Errorf("ERR server is busy")
+)
+
 func zzGet(recv any, ctx context.Context, key string) *redis.StringCmd {
 	vStep()
+	if _, waiter := ctx.(*zzCtx); waiter && zzGetFaults > 0 {
+		zzGetFaults--
+		return redis.NewStringResult("", zzErrServer)
+	}
 	e := zzSrv.find(key)
 	if e == nil {
 		return redis.NewStringResult("", redis.Nil)
@@ -461,7 +473,9 @@ func zzC07Redis() {
 		finished                           chan struct{}
 		err                                error
 		sawDifferent, sawAbsent, cancelled bool
+		mayFault                           bool
 	}
+	zzGetFaults = 0
 	W := vParam("W")
 	ws := make([]*waiter, W)
 	for i := range ws {
@@ -489,7 +503,13 @@ func zzC07Redis() {
 	}
 	S := vParam("S")
 	for step := 0; step < S; step++ {
-		switch vChoose("op", 6) {
+		switch vChoose("op", 6+vParam("GETFAULT")) {
+		case 6:
+			// the next GET of some waiter is answered with a server error: that waiter may end with it - never with nil
+			zzGetFaults = 1
+			for _, w := range ws {
+				w.mayFault = true
+			}
 		case 5:
 			// two hours pass: a record written with a one-hour expiry is gone
 			vAdvanceClock(int64(2 * time.Hour))
@@ -551,7 +571,7 @@ func zzC07Redis() {
 			vSettle()
 			select {
 			case <-w.finished:
-				vAssert(false, "a waiter returned although nothing it waits for happened")
+				vAssert(w.mayFault, "a waiter returned although nothing it waits for happened")
 			default:
 			}
 			w.cancelled = true
@@ -566,7 +586,7 @@ func zzC07Redis() {
 		case w.err == context.Canceled:
 			vAssert(w.cancelled, "WaitForVersionChange returned the context's error although the context is not done")
 		default:
-			vAssert(false, "WaitForVersionChange returned an undocumented error")
+			vAssert(w.mayFault && w.err == zzErrServer, "WaitForVersionChange returned an undocumented error")
 		}
 	}
 	vReach("all-returned")
